@@ -210,7 +210,7 @@ std::string run(const QJsonObject &c)
     m.function = QString::fromLatin1(func);
     m.line = c["line"].toInt();
     m.threadId = lm.threadId();
-    m.time = lm.time();
+    m.time = QDateTime::fromMSecsSinceEpoch(lm.time().toMSecsSinceEpoch()); // the instant in LOCAL time, whatever time spec the message carries
     {
         PatternFormatter pf(QStringLiteral("%{func}"));
         m.funcCleaned = pf.format(lm);
